@@ -117,7 +117,6 @@ Proof.
 Qed.
 
 (* ---------- List ---------- *)
-Definition mnv0 (mn : option nat) := match mn with Some m => m | None => 0 end.
 
 Lemma rep_spec_at_max k e mn mx p acc :
   at_max mx (length acc) = true -> rep_spec pg k e mn mx p acc = Match (VList (rev acc)) p.
@@ -376,7 +375,7 @@ Fixpoint wf (sc : list nat) (e : expr) : Prop :=
       /\ forall n E, skip_items_ok (PEG n E) es
   | Discard a b _ | Apply a b _ | Where a b | Sep a b _ _ _ _ => wf sc a /\ wf sc b
   | Opt e | Expect e | ExpectNot e => wf sc e
-  | Rep e mn mx => wf sc e /\ bounds_ok mn mx
+  | Rep e mn mx => wf sc e
   | Let x a b => ~ In x sc /\ wf sc a /\ wf (x :: sc) b
   | Class _ ms =>
       ms <> [] /\
@@ -586,17 +585,15 @@ Proof.
       rewrite ?Hp, ?He; cbn [bind]; auto.
     + rewrite H1, orb_true_r. auto.
     + rewrite H1, H2. cbn. auto.
-  - (* Rep *) cbn [wf] in Hwf. destruct Hwf as (Hwe & Hb).
+  - (* Rep *) cbn [wf] in Hwf. pose proof Hwf as Hwe.
     assert (Hgen : forall mnv mxv, bound_val E mn = Some mnv -> bound_val E mx = Some mxv ->
-              agree E (Rep e mn mx) (pos s) (rep_spec (PEG n E) n e mnv mxv (pos s) [])
+              agree E (Rep e mn mx) (pos s)
+                    (if bounds_conflict mnv mxv then Raise else rep_spec (PEG n E) n e mnv mxv (pos s) [])
                     (rep_loop true (EXEC n) n e mn mnv mxv s [])).
     { intros mnv mxv Emn Emx.
+      destruct (bounds_conflict mnv mxv) eqn:Ebc; [exact I|].
       assert (Hmm : forall m, mxv = Some m -> mnv0 mnv <= m).
-      { intros m ->. destruct mn as [|a|x], mx as [|b0|y]; cbn in Emn, Emx, Hb; try discriminate; try contradiction.
-        - inversion Emn; subst. cbn. lia.
-        - inversion Emn; subst. cbn. lia.
-        - inversion Emn; inversion Emx; subst. cbn. exact Hb.
-        - subst y. rewrite Emn in Emx. inversion Emx; subst. cbn. lia. }
+      { intros m ->. cbn in Ebc. apply Nat.ltb_ge in Ebc. exact Ebc. }
       assert (Hz : mn_zero mn = true -> mnv0 mnv = 0).
       { destruct mn as [|[|a]|x]; cbn in *; try discriminate; intros _; inversion Emn; reflexivity. }
       pose proof (rep_ok (PEG n E) (EXEC n) E (wf sc) IHl n e mn mnv mxv s [] Hwe HS Hmm Hz) as H. unfold agree.
